@@ -84,13 +84,15 @@ def harnesses(ctx):
     ]
     for h in hs:
         # thorough: the real constant 65536 for layout/constructor/sync/close (decided in minutes); overflow/underflow index the buffer
-        # symbolically and exceed an hour at 65536 on every back end, so they are scaled to 1024 there (64 in the quick tier)
+        # symbolically and exceed an hour at 65536 on every back end, so they are scaled to 1024 / 256 there (64 in the quick tier)
         if quick:
             h.defines = list(h.defines) + ['VX_BUFSZ=64']
             h.bounded = {'buffer_size': 64, 'note': 'gzfstreambuf::bufferSize scaled from 65536 to 64 (R20)'}
         elif h.name in ('gzbuf.overflow', 'gzbuf.underflow'):
-            h.defines = list(h.defines) + ['VX_BUFSZ=1024']
-            h.bounded = {'buffer_size': 1024, 'note': 'gzfstreambuf::bufferSize scaled from 65536 to 1024 (R20)'}
+            # (underflow at 1024 exhausts the 8 GB solver limit: 256 there)
+            sz = 1024 if h.name == 'gzbuf.overflow' else 256
+            h.defines = list(h.defines) + ['VX_BUFSZ=%d' % sz]
+            h.bounded = {'buffer_size': sz, 'note': 'gzfstreambuf::bufferSize scaled from 65536 to %d (R20)' % sz}
             h.timeout = 3400
         else:
             h.timeout = 3400
